@@ -2455,6 +2455,93 @@ def gen_jitmem(src_dir):
     return ''.join(out)
 
 
+
+# ------------------------------------------------------------------ src/stack.rs: frame sizes (StackUsageType, StackVerifier)
+
+def gen_stackrs(src_dir):
+    """stack.rs is small and fixed in shape: the unit checks each function against the shape it knows (anything else -- a
+    clamp, a rounding, another key -- is UNSUPPORTED) and emits the expressions that carry information"""
+    from rsemit import Emitter
+    env, _ = U.read_consts(src_dir)
+    toks = U.load(src_dir, 'stack.rs')
+    out = [U.HDR % 'src/stack.rs (StackUsageType::stack_usage, StackVerifier::calculate_stack_usage_for_local_func, stack_validate)', "\n"]
+
+    def norm(e):
+        return show(e).replace(' ', '')
+    # StackUsageType::stack_usage
+    sig, body = R.parse_fn(toks, 'stack_usage')
+    sts = body[1]
+    if not (len(sts) == 1 and sts[0][0] == 'tail' and sts[0][1][0] == 'match' and norm(sts[0][1][1]) == 'self' and len(sts[0][1][2]) == 2):
+        raise Unsupported("stack_usage shape")
+    arms = sts[0][1][2]
+    d = [a for a in arms if a[0] == ('ppath', 'StackUsageType::Default')]
+    c = [a for a in arms if a[0][0] == 'pctor' and a[0][1] == 'StackUsageType::Custom' and len(a[0][2]) == 1 and a[0][2][0][0] == 'ppath']
+    if len(d) != 1 or len(c) != 1 or d[0][1] is not None or c[0][1] is not None:
+        raise Unsupported("stack_usage arms")
+    var = c[0][0][2][0][1]
+    em = Emitter(env, {var: ('size', 'U16')})
+    dv, dty = em.expr(d[0][2])
+    ce = c[0][2]
+    if ce[0] == 'un' and ce[1] == '*':
+        ce = ce[2]
+    cv, cty = em.expr(ce)
+    if em.take_binds():
+        raise Unsupported("stack_usage arms are not plain values")
+    out.append("(* StackUsageType::stack_usage: None = Default, Some size = Custom(size) *)\n"
+               "Definition gen_stack_usage_value (t : option Z) : Z := match t with None => %s | Some size => %s end.\n\n" % (dv, cv))
+    # calculate_stack_usage_for_local_func
+    sig, body = R.parse_fn(toks, 'calculate_stack_usage_for_local_func')
+    sts = body[1]
+    ok = (len(sts) == 3 and sts[0][0] == 'let' and sts[0][1] == ('ppath', 'ty') and norm(sts[0][3]) == 'StackUsageType::Default' and
+          sts[1][0] == 'stmt' and sts[1][1][0] == 'match' and norm(sts[1][1][1]) == 'self.calculator' and len(sts[1][1][2]) == 2 and
+          sts[2][0] == 'tail' and norm(sts[2][1]) == 'Ok(ty)')
+    if not ok:
+        raise Unsupported("calculate_stack_usage_for_local_func shape")
+    some = [a for a in sts[1][1][2] if a[0][0] == 'pctor' and a[0][1] == 'Some']
+    none = [a for a in sts[1][1][2] if a[0] == ('ppath', 'None')]
+    if len(some) != 1 or len(none) != 1 or not (none[0][2][0] == 'return' and norm(none[0][2][1]) == 'Ok(ty)'):
+        raise Unsupported("calculate_stack_usage_for_local_func arms")
+    sb = some[0][2]
+    if not (sb[0] == 'block' and len(sb[1]) == 1 and sb[1][0][1][0] == 'assign' and sb[1][0][1][1] == '=' and norm(sb[1][0][1][2]) == 'ty'):
+        raise Unsupported("calculate_stack_usage_for_local_func: Some arm %s" % show(sb)[:80])
+    v = sb[1][0][1][3]
+    cname = some[0][0][2][0][1] if some[0][0][2] and some[0][0][2][0][0] == 'ppath' else None
+    if not (v[0] == 'call' and norm(v[1]) == 'StackUsageType::Custom' and len(v[2]) == 1 and v[2][0][0] == 'call' and norm(v[2][0][1]) == cname and
+            [norm(x) for x in v[2][0][2]] == ['prog', 'pc', 'self.data.as_mut().unwrap()']):
+        raise Unsupported("calculate_stack_usage_for_local_func: the frame size is not the calculator's result as it is: %s" % show(v)[:80])
+    out.append("(* calculate_stack_usage_for_local_func: with a calculator the frame size is exactly what it returns (r) for (prog, pc) *)\n"
+               "Definition gen_stack_usage_type (has_calc : bool) (r : Z) : option Z := if has_calc then Some r else None.\n\n")
+    # stack_validate
+    sig, body = R.parse_fn(toks, 'stack_validate')
+    sts = body[1]
+    ok = (len(sts) == 5 and sts[0][0] == 'let' and norm(sts[0][3]) == 'HashMap::new()' and
+          sts[1][0] == 'let' and sts[1][1] == ('ppath', 'ty') and norm(sts[1][3][1] if sts[1][3][0] == 'try' else sts[1][3]) == 'self.calculate_stack_usage_for_local_func(prog,0)' and
+          sts[2][0] == 'stmt' and norm(sts[2][1]) == 'stack_usage.insert(0,ty)' and
+          sts[3][0] == 'stmt' and sts[3][1][0] == 'for' and sts[3][1][1] == ('ppath', 'idx') and norm(sts[3][1][2]) in ('0..prog.len()/ebpf::INSN_SIZE', '0..(prog.len()/ebpf::INSN_SIZE)') and
+          sts[4][0] == 'tail' and norm(sts[4][1]) == 'Ok(StackUsage(stack_usage))')
+    if not ok:
+        raise Unsupported("stack_validate shape: %s" % [norm(x[1]) if x[0] != 'let' else norm(x[3]) for x in sts][:5])
+    fb = sts[3][1][3][1]
+    if not (len(fb) == 2 and fb[0][0] == 'let' and fb[0][1] == ('ppath', 'insn') and norm(fb[0][3]) == 'ebpf::get_insn(prog,idx)' and
+            fb[1][1][0] == 'if' and fb[1][1][3] is None):
+        raise Unsupported("stack_validate loop body")
+    cond = fb[1][1][1]
+    blk = fb[1][1][2][1]
+    if not (len(blk) == 3 and blk[0][0] == 'let' and blk[0][1] == ('ppath', 'dst_insn_ptr') and blk[1][0] == 'let' and blk[1][1] == ('ppath', 'ty') and
+            norm(blk[1][3][1] if blk[1][3][0] == 'try' else blk[1][3]) in ('self.calculate_stack_usage_for_local_func(prog,dst_insn_ptrasusize)', 'self.calculate_stack_usage_for_local_func(prog,(dst_insn_ptrasusize))') and
+            norm(blk[2][1]) in ('stack_usage.insert(dst_insn_ptrasusize,ty)', 'stack_usage.insert((dst_insn_ptrasusize),ty)')):
+        raise Unsupported("stack_validate: local-call block %s" % [norm(x[3]) if x[0] == 'let' else norm(x[1]) for x in blk])
+    em = Emitter(env, {'insn.opc': ('opc', 'U8'), 'insn.src': ('src', 'U8')})
+    ct, cty = em.expr(cond)
+    if cty != 'BOOL' or em.take_binds():
+        raise Unsupported("stack_validate: condition")
+    out.append("(* stack_validate: which instructions add a key besides 0 *)\nDefinition gen_stack_is_local_call (opc src : Z) : bool := %s.\n\n" % ct)
+    em = Emitter(env, {'idx': ('idx', 'USZ'), 'insn.imm': ('imm', 'I32')})
+    kt, kty = em.expr(('as', blk[0][3], ('ty', 'usize')))
+    out.append("(* ... and the key: `(idx as isize + 1 + insn.imm as isize) as usize` *)\nDefinition gen_stack_call_key (idx imm : Z) : res Z :=\n  %s.\n\n"
+               % Emitter.wrap_binds(em.take_binds(), 'Ok %s' % kt))
+    return ''.join(out)
+
 # ------------------------------------------------------------------ src/lib.rs: the state-changing API methods as effect lists
 
 API_FNS = ['set_program', 'set_verifier', 'register_helper', 'set_stack_usage_calculator', 'jit_compile', 'cranelift_compile']
